@@ -46,6 +46,7 @@ func (c06) alphabet(pfx string) []func(i int) xMsg {
 
 func randHistory(rng *core.Rng, pfx string, maxLen int, withOpen bool) []xMsg {
 	n := 1 + rng.Intn(maxLen)
+	emptyUsed := false
 	var h []xMsg
 	bind := 0
 	if rng.Intn(12) == 0 {
@@ -78,7 +79,13 @@ func randHistory(rng *core.Rng, pfx string, maxLen int, withOpen bool) []xMsg {
 			for j := rng.Intn(3); j > 0; j-- {
 				oids = append(oids, uint32(rng.Intn(3000)))
 			}
-			h = append(h, xMsg{K: "parse", Name: name, Query: "P " + id, Prog: xProg(id, kind), OIDs: oids})
+			q := "P " + id
+			if !emptyUsed && rng.Intn(6) == 0 {
+				// an empty or blank query text is a text like any other for the extended protocol: it goes
+				// to the parser and the statement it yields is bound, described and executed as usual
+				q, emptyUsed = core.Pick(rng, []string{"", " ", "\n\t "}), true
+			}
+			h = append(h, xMsg{K: "parse", Name: name, Query: q, Prog: xProg(id, kind), OIDs: oids})
 		case k < 38:
 			bind++
 			m := xMsg{K: "bind", Portal: portal, Name: name, BindID: bind,
